@@ -273,6 +273,29 @@ def is_scalar(t):
     return is_int(t) or t in SCALARS or isnum(t)
 
 
+REDUCERS = ('min', 'max', 'nanmin', 'nanmax', 'mean', 'nanmean', 'sum', 'median', 'pymin', 'pymax', 'argmax', 'argmin', 'any', 'all')
+
+
+def scalar_value(t):
+    """t certainly denotes one number (so that min([t]) / max([t]) is t itself)"""
+    tag = t[0]
+    if is_scalar(t):
+        return True
+    if tag == 'call':
+        return t[1] in REDUCERS and len(t[2]) == 1 and not t[3]
+    if tag == 'idx':
+        return t[1][0] in ('col', 'atom') and (is_int(t[2]) or t[2][0] == 'lv')
+    if tag == 'lin':
+        return all(scalar_value(x) for x, c in t[2])
+    if tag == 'mul':
+        return all(scalar_value(x) for x in t[1])
+    if tag == 'div':
+        return scalar_value(t[1]) and scalar_value(t[2])
+    if tag == 'gamma':
+        return scalar_value(t[2]) and scalar_value(t[3])
+    return False
+
+
 def index(base, k):
     if base[0] == 'nd':
         base = base[1]
@@ -296,6 +319,19 @@ def index(base, k):
         return base[2]
     if base[0] == 'gamma':
         return gamma(base[1], index(base[2], k), index(base[3], k))
+    if base[0] in ('div', 'mul') and _pointwise_key(k):
+        # element k of an element-wise quotient / product (numbers are broadcast)
+        parts = [x if scalar_value(x) else index(x, k) for x in (base[1:3] if base[0] == 'div' else base[1])]
+        if base[0] == 'div':
+            return div(parts[0], parts[1])
+        out = parts[0]
+        for p in parts[1:]:
+            out = mul(out, p)
+        return out
+    if base[0] == 'call' and base[1] in ('minimum', 'maximum') and len(base[2]) == 2 and not base[3] and _pointwise_key(k):
+        # np.minimum(a, b)[k] is the smaller of the two elements: the same normal form as np.min([a[k], b[k]])
+        parts = [x if scalar_value(x) else index(x, k) for x in base[2]]
+        return ('call', base[1][:3], (('tuple', sort_terms(parts)),), ())
     if base[0] == 'slice' and base[4] == NONE:
         # X[a:b][i] == X[i + a] for an index counted from the front; X[a:-m][-j] == X[-j - m] from the back
         lo, hi = base[2], base[3]
@@ -325,6 +361,9 @@ def _front_index(k):
         return True
     if k[0] == 'lin' and Fraction(k[1]).denominator == 1 and k[1] >= 0:
         return all(x[0] == 'lv' and c == 1 for x, c in k[2])
+    if k[0] == 'lin' and Fraction(k[1]).denominator == 1 and len(k[2]) == 1 and k[2][0][1] == 1 and k[2][0][0][0] == 'lv':
+        key = k[2][0][0][1]               # lv - c with lv ranging over range(a, ...), a >= c
+        return key[0] == 'range' and _nonneg_const(key[1]) and key[3] == ('const', 1) and key[1][1] + k[1] >= 0
     return False
 
 
